@@ -37,6 +37,23 @@ type iMap struct {
 	kval map[string]constant.Value
 }
 
+// iStruct is an abstract heap object of a named struct type (always used through its pointer).
+type iStruct struct {
+	typ    *types.Named
+	fields map[int]any
+}
+
+type iFieldAddr struct {
+	st    *iStruct
+	field int
+}
+
+// iClosure is a function value with its captured variables.
+type iClosure struct {
+	fn    *ssa.Function
+	binds []any
+}
+
 type iIter struct {
 	mp   *iMap
 	keys []string
@@ -113,6 +130,10 @@ func zeroOf(t types.Type, commaOk bool) any {
 }
 
 func (ip *Interp) run(fn *ssa.Function, args []any, depth int) (any, bool) {
+	return ip.runClosure(fn, args, nil, depth)
+}
+
+func (ip *Interp) runClosure(fn *ssa.Function, args []any, binds []any, depth int) (any, bool) {
 	if fn == nil || fn.Blocks == nil || len(fn.Params) != len(args) || depth > interpMaxDepth {
 		ip.dirty = true
 		return nil, false
@@ -128,6 +149,11 @@ func (ip *Interp) run(fn *ssa.Function, args []any, depth int) (any, bool) {
 	for i, p := range fn.Params {
 		if args[i] != nil {
 			env[p] = args[i]
+		}
+	}
+	for i, fv := range fn.FreeVars {
+		if i < len(binds) && binds[i] != nil {
+			env[fv] = binds[i]
 		}
 	}
 	get := func(v ssa.Value) (any, bool) {
@@ -151,6 +177,9 @@ func (ip *Interp) run(fn *ssa.Function, args []any, depth int) (any, bool) {
 				}
 			}
 			return nil, false
+		}
+		if f, ok := v.(*ssa.Function); ok {
+			return &iClosure{fn: f}, true
 		}
 		if g, ok := v.(*ssa.Global); ok && ip.globals != nil {
 			// the address of a package-level variable: arrays are element-addressable, everything else is one cell
@@ -224,6 +253,13 @@ func (ip *Interp) run(fn *ssa.Function, args []any, depth int) (any, bool) {
 				case token.MUL:
 					// a load
 					if a, ok := get(x.X); ok {
+						if fa, isFA := a.(iFieldAddr); isFA {
+							if fv, have := fa.st.fields[fa.field]; have && fv != nil {
+								env[x] = fv
+								continue
+							}
+							// unknown field of an abstract object: the hook may know (e.g. a spilled value receiver)
+						}
 						if ad, isA := a.(iAddr); isA {
 							i := ad.idx
 							if i == -1 && len(ad.arr.elems) == 1 {
@@ -252,6 +288,12 @@ func (ip *Interp) run(fn *ssa.Function, args []any, depth int) (any, bool) {
 					delete(env, x)
 				}
 			case *ssa.Alloc:
+				if nt, isNamed := x.Type().Underlying().(*types.Pointer).Elem().(*types.Named); isNamed {
+					if _, isSt := nt.Underlying().(*types.Struct); isSt {
+						env[x] = &iStruct{typ: nt, fields: map[int]any{}}
+						continue
+					}
+				}
 				n := 1
 				if at, isArr := x.Type().Underlying().(*types.Pointer).Elem().Underlying().(*types.Array); isArr {
 					n = int(at.Len())
@@ -296,6 +338,11 @@ func (ip *Interp) run(fn *ssa.Function, args []any, depth int) (any, bool) {
 				delete(env, x)
 			case *ssa.Store:
 				if a, ok := get(x.Addr); ok {
+					if fa, isFA := a.(iFieldAddr); isFA {
+						v, _ := get(x.Val)
+						fa.st.fields[fa.field] = v
+						continue
+					}
 					if ad, isA := a.(iAddr); isA {
 						v, _ := get(x.Val)
 						if ad.idx >= 0 && ad.idx < len(ad.arr.elems) {
@@ -377,7 +424,79 @@ func (ip *Interp) run(fn *ssa.Function, args []any, depth int) (any, bool) {
 				} else {
 					delete(env, x)
 				}
-			case *ssa.FieldAddr, *ssa.Field, *ssa.MakeClosure, *ssa.MakeSlice, *ssa.TypeAssert, *ssa.Index, *ssa.SliceToArrayPointer, *ssa.MakeChan, *ssa.Select:
+			case *ssa.FieldAddr:
+				if b, ok := get(x.X); ok {
+					if st, isSt := b.(*iStruct); isSt {
+						env[x] = iFieldAddr{st, x.Field}
+						continue
+					}
+				}
+				delete(env, x)
+			case *ssa.MakeClosure:
+				if cf, isFn := x.Fn.(*ssa.Function); isFn {
+					cl := &iClosure{fn: cf, binds: make([]any, len(x.Bindings))}
+					for i, bnd := range x.Bindings {
+						cl.binds[i], _ = get(bnd)
+					}
+					env[x] = cl
+					continue
+				}
+				delete(env, x)
+			case *ssa.MakeSlice:
+				if lv, ok := get(x.Len); ok {
+					if lc, isC := lv.(constant.Value); isC {
+						if n, exact := constant.Int64Val(lc); exact && n >= 0 && n <= 1024 {
+							arr := &iArr{elems: make([]any, n)}
+							zero := zeroOf(x.Type().Underlying().(*types.Slice).Elem(), false)
+							if zero == nil {
+								zero = iNil{}
+							}
+							for i := range arr.elems {
+								arr.elems[i] = zero
+							}
+							env[x] = iSlice{arr, 0, int(n)}
+							continue
+						}
+					}
+				}
+				delete(env, x)
+			case *ssa.TypeAssert:
+				v, ok := get(x.X)
+				if !ok {
+					delete(env, x)
+					continue
+				}
+				holds, known := false, false
+				switch vv := v.(type) {
+				case *iStruct:
+					known = true
+					pt := types.NewPointer(vv.typ)
+					if types.IsInterface(x.AssertedType) {
+						holds = types.Implements(pt, x.AssertedType.Underlying().(*types.Interface))
+					} else {
+						holds = types.Identical(pt, x.AssertedType)
+					}
+				case iNil:
+					known, holds = true, false
+				}
+				if !known {
+					delete(env, x)
+					continue
+				}
+				if x.CommaOk {
+					if holds {
+						env[x] = iTuple{v, constant.MakeBool(true)}
+					} else {
+						env[x] = iTuple{iNil{}, constant.MakeBool(false)}
+					}
+					continue
+				}
+				if !holds {
+					ip.stuck = "failing type assertion at " + ip.m.InstrPos(x)
+					return nil, false
+				}
+				env[x] = v
+			case *ssa.Field, *ssa.Index, *ssa.SliceToArrayPointer, *ssa.MakeChan, *ssa.Select:
 				delete(env, x.(ssa.Value))
 			case *ssa.DebugRef:
 			case *ssa.Convert:
@@ -470,7 +589,36 @@ func (ip *Interp) run(fn *ssa.Function, args []any, depth int) (any, bool) {
 					}
 				}
 				if bi, isB := x.Call.Value.(*ssa.Builtin); isB {
+					if bi.Name() == "append" && len(args) == 2 {
+						var base, more []any
+						okA := true
+						switch a := args[0].(type) {
+						case iSlice:
+							base = a.arr.elems[a.lo:a.high]
+						case iNil:
+						default:
+							okA = false
+						}
+						switch a := args[1].(type) {
+						case iSlice:
+							more = a.arr.elems[a.lo:a.high]
+						case iNil:
+						default:
+							okA = false
+						}
+						if okA {
+							arr := &iArr{elems: append(append([]any{}, base...), more...)}
+							env[x] = iSlice{arr, 0, len(arr.elems)}
+							continue
+						}
+						delete(env, x)
+						continue
+					}
 					if bi.Name() == "len" && len(args) == 1 {
+						if _, isNil := args[0].(iNil); isNil {
+							env[x] = constant.MakeInt64(0)
+							continue
+						}
 						switch a := args[0].(type) {
 						case iSlice:
 							env[x] = constant.MakeInt64(int64(a.high - a.lo))
@@ -510,9 +658,25 @@ func (ip *Interp) run(fn *ssa.Function, args []any, depth int) (any, bool) {
 					}
 				}
 				sc := x.Call.StaticCallee()
+				var clBinds []any
+				if sc == nil && x.Call.IsInvoke() && len(args) > 0 {
+					// interface method call on an abstract object: the concrete method
+					if st, isSt := args[0].(*iStruct); isSt {
+						if sel := ip.m.Prog.MethodSets.MethodSet(types.NewPointer(st.typ)).Lookup(x.Call.Method.Pkg(), x.Call.Method.Name()); sel != nil {
+							sc = ip.m.Prog.MethodValue(sel)
+						}
+					}
+				}
+				if sc == nil && !x.Call.IsInvoke() {
+					if fv, ok := get(x.Call.Value); ok {
+						if cl, isCl := fv.(*iClosure); isCl {
+							sc, clBinds = cl.fn, cl.binds
+						}
+					}
+				}
 				if sc != nil && sc.Blocks != nil && ip.m.InModule(sc) {
 					nLost := len(ip.lost)
-					res, ok := ip.run(sc, args, depth+1)
+					res, ok := ip.runClosure(sc, args, clBinds, depth+1)
 					if ip.stopped {
 						return nil, false
 					}
@@ -694,7 +858,7 @@ func foldAny(op token.Token, l, r any) (any, bool) {
 		switch x.(type) {
 		case iNil:
 			return true, true
-		case iFn, iObj:
+		case iFn, iObj, *iStruct, *iClosure, iSlice, *iMap:
 			return false, true
 		}
 		return false, false
